@@ -59,14 +59,15 @@ def round53Nat (n : Nat) : Nat :=
 def round53 (v : Int) : Int :=
   if v < 0 then - Int.ofNat (round53Nat v.natAbs) else Int.ofNat (round53Nat v.natAbs)
 
-/-- intToValue (vm.go:392): valueInt inside ±2^53, else valueFloat(i). -/
-def intToValue (i : Int) : JsNum :=
-  if Safe i then .int i else .flt (.intval (round53 i))
-
-/-- floatToValue (vm.go:409) with floatToInt (vm.go:402). -/
+/-- floatToValue (vm.go:410) with floatToInt (vm.go:403). -/
 def floatToValue : Flt → JsNum
   | .intval i => if Safe i then .int i else .flt (.intval i)
   | f => .flt f
+
+/-- intToValue (vm.go:392): valueInt inside ±2^53, else floatToValue(float64(i)) — the nearest double may again be
+    a safe integer (2^53+1 rounds to 2^53). -/
+def intToValue (i : Int) : JsNum :=
+  if Safe i then .int i else floatToValue (.intval (round53 i))
 
 /-- the numeric cases of the type switch of Runtime.toValue (runtime.go:1840-1866). -/
 def toValueInt (k : IntKind) (v : Int) : JsNum :=
@@ -227,6 +228,68 @@ def Exception : Shape → Bool
   | .rSlice _ nilPtr => nilPtr
   | .rFunc d nilPtr => nilPtr || d != 0                      -- *func: the pointer is dropped
   | .rOther d nilPtr => nilPtr || d == 0                     -- struct / named scalar by value: copy (==-equal)
+  | _ => false
+
+/-! ### ExportTo into a variable of the value's own Go type (Runtime.toReflectValue, runtime.go:2072) -/
+
+/-- The branch of toReflectValue that decides, in source order: `typ == typeObject` with an Object (l.2080),
+    ExportType nil → zero value (l.2094), the AssignableTo / ConvertibleTo / pointer-stripping loop (l.2101-2124),
+    then the Kind switch (numeric cases l.2150-2185, Ptr l.2240 which allocates and recurses, Func l.2235). -/
+inductive ToPath where
+  | objectDirect | zeroOfType | assignable | numericSwitch | ptrRecurse | funcGateway | passthroughValue
+deriving DecidableEq, Repr
+
+/-- `hasStarRuntime`-style distinctions are not needed: the native signatures either are assignable or go through the
+    Func gateway; both are functions. -/
+def toReflectOwn (sh : Shape) : ToPath :=
+  match toValueCase sh, sh with
+  | .passthrough, .objectPtr false => .objectDirect          -- typ == typeObject, v is an *Object
+  | .passthrough, _ => .passthroughValue                      -- a goja.Value: not Go data
+  | .null, _ => .zeroOfType                                   -- et == reflectTypeNil: dst.Set(reflect.Zero(typ))
+  | .number, .intKind .int64 => .assignable                   -- et int64 == typ
+  | .number, .float64 => .assignable                          -- (or the Float64 case when the value became a valueInt)
+  | .number, _ => .numericSwitch
+  | .nativeFunc, _ => .funcGateway                            -- assignable for func(FunctionCall) Value, MakeFunc otherwise
+  | .nativeCtor, _ => .funcGateway
+  | .wrappedFunc, .rFunc 0 _ => .assignable
+  | .wrappedFunc, _ => .ptrRecurse                            -- *func: not assignable, Kind Ptr: reflect.New + recurse
+  | _, _ => .assignable                                       -- every wrapper: ExportType() is the Go type itself
+
+/-- How the result of ExportTo(ToValue(g), &x) with x of g's own type relates to g. -/
+inductive RelTo where
+  | deepEqual          -- reflect.DeepEqual(x, g) (for numeric kinds: values within ±2^53, see the numeric theorems)
+  | func               -- a func value (never DeepEqual unless nil): the same func, or a gateway for it
+  | bigNilZero         -- nil *big.Int comes back as 0
+  | nilChainCollapsed  -- **T… with a nil inner pointer: the whole chain comes back as a nil outer pointer
+  | notGoData
+deriving DecidableEq, Repr
+
+def relTo (sh : Shape) : RelTo :=
+  match toReflectOwn sh, sh with
+  | .passthroughValue, _ => .notGoData
+  | .objectDirect, _ => .deepEqual
+  | .funcGateway, _ => .func
+  | .ptrRecurse, _ => .func
+  | .assignable, .rFunc _ _ => .func
+  | .assignable, .bigInt true => .bigNilZero
+  | .zeroOfType, .bigInt true => .bigNilZero
+  | .zeroOfType, .rMap (_ + 2) _ _ _ => .nilChainCollapsed
+  | .zeroOfType, .rArray (_ + 2) _ => .nilChainCollapsed
+  | .zeroOfType, .rSlice (_ + 2) _ => .nilChainCollapsed
+  | .zeroOfType, .rFunc _ _ => .func
+  | .zeroOfType, .rOther (_ + 2) _ => .nilChainCollapsed
+  | _, _ => .deepEqual
+
+/-- The exact exceptions to "ExportTo into the value's own type yields a deep-equal value". -/
+def ExceptionTo : Shape → Bool
+  | .jsValue => true
+  | .nativeFunc | .nativeCtor => true
+  | .rFunc _ _ => true
+  | .bigInt nil => nil
+  | .rMap d nilPtr _ _ => nilPtr && decide (2 ≤ d)
+  | .rArray d nilPtr => nilPtr && decide (2 ≤ d)
+  | .rSlice d nilPtr => nilPtr && decide (2 ≤ d)
+  | .rOther d nilPtr => nilPtr && decide (2 ≤ d)
   | _ => false
 
 end GojaModel.C13
